@@ -1,42 +1,152 @@
 --------------------------- MODULE TraceFieldOps ---------------------------
-(* Trace validation of recorded field operations against exact modular arithmetic (mechanism B + D).
+(* C10 — trace validation of recorded field operations against exact modular arithmetic
+   (mechanism B + D of DESIGN.md).
+
    Every event of the ndjson trace named by the environment variable TRACE is one public call on a
-   real field element, logged at its return:
-     {"f": "f64", "op": "mul", "a": [..le bytes of as_int..], "b": [..], "r": [..], "q": [..hint..]}
-   The trace is accepted iff every event is explained by the specification.  On rejection the
-   postcondition prints the index of the first unexplained event. *)
-EXTENDS Integers, Sequences, TLC, Json, IOUtils, BigNat
+   real winterfell field element (f64, f62, f128 and their quadratic / cubic extensions), logged at
+   its return by harness/fields:
+       f, d        field name and extension degree (1, 2, 3)
+       op          new | from_mont | from | add | sub | neg | double | square | cube | mul | mul_base |
+                   mul_small | inv | div | exp | conj | eq
+       a, b, r     operands / result as coordinate vectors of canonical values (as_int, LE bytes)
+       v, e        integer argument of new / from_mont, exponent of exp (LE bytes)
+       h, h2, s, chain   untrusted witnesses (quotients, the square of cube, square-and-multiply links)
+       eq          result of == (0/1)
+       timeout / panic / crash   the call did not return normally
+   (raw representations, classes and provenance are also logged; they are used for reporting only and
+   are never read here).  `Explains(e)` is the specification of the call: exact arithmetic modulo the
+   documented prime and extension polynomial (FieldDefs).  An event is accepted iff it is explained;
+   there is NO accepting action for a call that timed out, panicked or crashed.
+
+   Unlike the first-rejection idiom, validation continues after an unexplained event and prints its
+   index (<<"REJECTED_EVENT", l>>): events are self-contained (operands are logged with every call),
+   so one violation cannot hide later ones.  The postcondition checks the whole trace was consumed. *)
+EXTENDS Integers, Sequences, TLC, Json, IOUtils, BigNat, FieldDefs
 
 Rec == ndJsonDeserialize(IOEnv.TRACE)
 
 VARIABLE l
-vars == <<l>>
 
-Modulus(f) == CASE f = "f64"  -> <<1, 0, 0, 0, 255, 255, 255, 255>>                      \* 2^64 - 2^32 + 1
-                [] f = "f62"  -> <<1, 0, 0, 0, 128, 200, 255, 63>>                         \* 2^62 - 111*2^39 + 1
-                [] f = "f128" -> <<1, 0, 0, 0, 0, 211, 255, 255, 255, 255, 255, 255, 255, 255, 255, 255>>  \* 2^128 - 45*2^40 + 1
+ASSUME \A f \in Fields : BEq(Modulus(f), ModulusClosedForm(f))
 
-Canon(e, p) == BLess(e, p)
+Has(e, k) == k \in DOMAIN e
+Returned(e) == ~Has(e, "timeout") /\ ~Has(e, "panic") /\ ~Has(e, "crash")
+
+R64 == BPow2(64)       \* Montgomery radix of f64::from_mont
 
 Explains(e) ==
-  LET p == Modulus(e.f) IN
-  /\ Canon(e.a, p)
-  /\ Canon(e.r, p)
-  /\ CASE e.op = "add" -> Canon(e.b, p) /\ BEq(e.r, ModAdd(e.a, e.b, p))
-       [] e.op = "sub" -> Canon(e.b, p) /\ BEq(e.r, ModSub(e.a, e.b, p))
-       [] e.op = "neg" -> BEq(e.r, ModNeg(e.a, p))
-       [] e.op = "mul" -> Canon(e.b, p) /\ IsModMul(e.a, e.b, e.r, e.q, p)
+  LET f == e.f  d == e.d  p == Modulus(e.f)  op == e.op IN
+  /\ Returned(e)
+  /\ Supported(f, d)
+  /\ CASE op = "new" ->
+            \* BaseElement::new(v) / From<small int>: the canonical value is v mod p
+            /\ CanonVec(e.r, 1, p)
+            /\ IsDivMod(e.v, p, e.h[1].q, e.r[1])
+       [] op = "from_mont" ->
+            \* f64: the element whose Montgomery form (radix 2^64) is v < p:  r * 2^64 = v (mod p)
+            /\ f = "f64" /\ Canon(e.v, p) /\ CanonVec(e.r, 1, p)
+            /\ IsDivMod(BMul(e.r[1], R64), p, e.h[1].q, e.v)
+       [] op = "from" ->
+            \* embedding of a base element
+            /\ CanonVec(e.a, 1, p) /\ CanonVec(e.r, d, p)
+            /\ BEq(e.r[1], e.a[1]) /\ \A i \in 2..d : BIsZero(e.r[i])
+       [] op \in {"add", "sub"} ->
+            /\ CanonVec(e.a, d, p) /\ CanonVec(e.b, d, p) /\ CanonVec(e.r, d, p)
+            /\ \A i \in 1..d : BEq(e.r[i], IF op = "add" THEN ModAdd(e.a[i], e.b[i], p)
+                                                        ELSE ModSub(e.a[i], e.b[i], p))
+       [] op \in {"neg", "double"} ->
+            /\ CanonVec(e.a, d, p) /\ CanonVec(e.r, d, p)
+            /\ \A i \in 1..d : BEq(e.r[i], IF op = "neg" THEN ModNeg(e.a[i], p)
+                                                        ELSE ModAdd(e.a[i], e.a[i], p))
+       [] op = "mul" ->
+            /\ CanonVec(e.a, d, p) /\ CanonVec(e.b, d, p)
+            /\ ExtMulOk(f, d, e.a, e.b, e.r, e.h)
+       [] op = "square" ->
+            /\ CanonVec(e.a, d, p)
+            /\ ExtMulOk(f, d, e.a, e.a, e.r, e.h)
+       [] op = "cube" ->
+            /\ CanonVec(e.a, d, p)
+            /\ ExtMulOk(f, d, e.a, e.a, e.s, e.h)
+            /\ ExtMulOk(f, d, e.s, e.a, e.r, e.h2)
+       [] op \in {"mul_base", "mul_small"} ->
+            \* extension element times base element; f64::mul_small: base element times a u32
+            /\ (op = "mul_small" => f = "f64" /\ d = 1 /\ BLess(e.b[1], BPow2(32)))
+            /\ (op = "mul_base" => Canon(e.b[1], p))
+            /\ CanonVec(e.a, d, p) /\ CanonVec(e.r, d, p) /\ Len(e.h) = d
+            /\ \A i \in 1..d : IsModMul(e.a[i], e.b[1], e.r[i], e.h[i].q, p)
+       [] op = "inv" ->
+            \* inv(0) = 0, otherwise a * r = 1
+            /\ CanonVec(e.a, d, p) /\ CanonVec(e.r, d, p)
+            /\ IF IsZeroVec(e.a) THEN IsZeroVec(e.r)
+                                 ELSE ExtMulOk(f, d, e.a, e.r, OneVec(d), e.h)
+       [] op = "div" ->
+            \* a / b = a * inv(b): zero for b = 0, otherwise the unique r with r * b = a
+            /\ CanonVec(e.a, d, p) /\ CanonVec(e.b, d, p) /\ CanonVec(e.r, d, p)
+            /\ IF IsZeroVec(e.b) THEN IsZeroVec(e.r)
+                                 ELSE ExtMulOk(f, d, e.r, e.b, e.a, e.h)
+       [] op = "conj" ->
+            \* conjugate() is the Frobenius map y |-> y^p (identity on the base field)
+            /\ CanonVec(e.a, d, p) /\ CanonVec(e.r, d, p)
+            \* (events carrying a p-th power chain instead of linear hints: see the chain sub-steps)
+            /\ IF d = 1 THEN VecEq(e.r, e.a) ELSE FrobLinearOk(f, d, e.a, e.r, e.h)
+       [] op = "eq" ->
+            \* == holds exactly when the canonical values are equal
+            /\ CanonVec(e.a, d, p) /\ CanonVec(e.b, d, p)
+            /\ e.eq = (IF VecEq(e.a, e.b) THEN 1 ELSE 0)
        [] OTHER -> FALSE
 
-Init == l = 1
-Next == /\ l <= Len(Rec)
-        /\ Explains(Rec[l])
-        /\ l' = l + 1
+(* ---- chains: one TLC step per square-and-multiply link ------------------------------------------
+   exp, conj-with-chain and frobcert events carry a chain of up to 127 links.  They are validated by
+   sub-steps (k = index of the next link, acc = running power, bad = some link failed) instead of one
+   deep recursive evaluation; the definition is exactly FieldDefs!ExpChainOk. *)
+IsChainEvent(e) == e.op \in {"exp", "frobcert"} \/ (e.op = "conj" /\ e.d > 1 /\ Has(e, "chain"))
+
+ChainBase(e) == IF e.op = "frobcert" THEN [i \in 1..e.d |-> IF i = e.k + 1 THEN <<1>> ELSE <<>>] ELSE e.a
+ChainExp(e)  == IF e.op = "exp" THEN e.e ELSE Modulus(e.f)
+ChainRes(e)  == IF e.op = "frobcert" THEN FrobImg(e.f, e.d)[e.k + 1] ELSE e.r
+
+ChainPre(e) ==
+  LET p == Modulus(e.f) IN
+  /\ Returned(e)
+  /\ Supported(e.f, e.d)
+  /\ (e.op = "frobcert" => e.d > 1 /\ e.k \in 1..(e.d - 1))
+  /\ CanonVec(ChainBase(e), e.d, p) /\ CanonVec(ChainRes(e), e.d, p)
+  /\ Len(e.chain) = (IF BitLen(ChainExp(e)) = 0 THEN 0 ELSE BitLen(ChainExp(e)) - 1)
+
+LinkOk(e, k, a) ==
+  LET lk == e.chain[k]
+      j  == BitLen(ChainExp(e)) - 1 - k
+  IN /\ ExtMulOk(e.f, e.d, a, a, lk.s, lk.hs)
+     /\ (Bit(ChainExp(e), j) = 1 => ExtMulOk(e.f, e.d, lk.s, ChainBase(e), lk.m, lk.hm))
+LinkOut(e, k) == IF Bit(ChainExp(e), BitLen(ChainExp(e)) - 1 - k) = 1 THEN e.chain[k].m ELSE e.chain[k].s
+
+VARIABLES k, acc, bad
+vars == <<l, k, acc, bad>>
+
+Reject(i) == PrintT(<<"REJECTED_EVENT", i>>)
+
+Init == l = 1 /\ k = 0 /\ acc = <<>> /\ bad = FALSE
+Plain == /\ ~IsChainEvent(Rec[l])
+         /\ IF Explains(Rec[l]) THEN TRUE ELSE Reject(l)
+         /\ l' = l + 1 /\ UNCHANGED <<k, acc, bad>>
+ChainStart == /\ IsChainEvent(Rec[l]) /\ k = 0
+              /\ IF Returned(Rec[l]) /\ ChainPre(Rec[l])
+                   THEN /\ k' = 1 /\ bad' = FALSE
+                        /\ acc' = IF BitLen(ChainExp(Rec[l])) = 0 THEN OneVec(Rec[l].d) ELSE ChainBase(Rec[l])
+                        /\ l' = l
+                   ELSE /\ Reject(l) /\ l' = l + 1 /\ UNCHANGED <<k, acc, bad>>
+ChainLink == /\ IsChainEvent(Rec[l]) /\ k > 0 /\ k <= Len(Rec[l].chain)
+             /\ bad' = (bad \/ ~LinkOk(Rec[l], k, acc))
+             /\ acc' = LinkOut(Rec[l], k)
+             /\ k' = k + 1 /\ l' = l
+ChainEnd == /\ IsChainEvent(Rec[l]) /\ k > Len(Rec[l].chain)
+            /\ IF ~bad /\ VecEq(acc, ChainRes(Rec[l])) THEN TRUE ELSE Reject(l)
+            /\ l' = l + 1 /\ k' = 0 /\ acc' = <<>> /\ bad' = FALSE
+Next == l <= Len(Rec) /\ (Plain \/ ChainStart \/ ChainLink \/ ChainEnd)
 Spec == Init /\ [][Next]_vars
 
-\* l only grows, and with one worker the register holds the largest l reached: the index of the first
-\* unexplained event (or Len(Rec)+1 when the whole trace was consumed)
+\* l only grows, and with one worker the register holds the largest l reached
 Progress == TLCSet(7, l)
-Accepted == IF TLCGet(7) = Len(Rec) + 1 THEN TRUE
-            ELSE Print(<<"REJECTED_AT", TLCGet(7)>>, FALSE)
+Accepted == IF TLCGet(7) = Len(Rec) + 1 THEN PrintT(<<"CONSUMED", Len(Rec)>>)
+            ELSE Print(<<"STOPPED_AT", TLCGet(7)>>, FALSE)
 =============================================================================
